@@ -304,6 +304,7 @@ func r13(c *fw.Ctx) {
 // strips negations.
 func expandFacts(facts []pathFact) []pathFact {
 	var out []pathFact
+	at := 0
 	var add func(e ast.Expr, v bool)
 	add = func(e ast.Expr, v bool) {
 		e = unparen(e)
@@ -320,9 +321,10 @@ func expandFacts(facts []pathFact) []pathFact {
 				return
 			}
 		}
-		out = append(out, pathFact{Cond: e, Val: v})
+		out = append(out, pathFact{Cond: e, Val: v, At: at})
 	}
 	for _, f := range facts {
+		at = f.At
 		add(f.Cond, f.Val)
 	}
 	return out
